@@ -3,7 +3,7 @@
    gen_make_contingency_manager, gen_make_event_tables, gen_contingency_maps (categorical/contingency_impl.py) are
    regenerated from the current source on every run; `mode` is a string (MStr) or a function of the operator module (MOp).
    Only statements; every proof is `exact <lemma>` into coq/proofs/C08.v. *)
-From V Require Import lib.Tree lib.C08_aux gen.Gen_C08_discretise gen.Gen_C08_contingency model.C08 proofs.C08 proofs.C08_additive proofs.C08_proportion proofs.C08_model.
+From V Require Import lib.Tree lib.C08_aux gen.Gen_C08_discretise gen.Gen_C08_contingency model.C08 proofs.C08 proofs.C08_additive proofs.C08_proportion proofs.C08_model gen.Gen_C08_views proofs.C08_views.
 
 (* ---- discretisation ---- *)
 (* for each of the six relations r, both spellings, every rational data value x, threshold c and tolerance tol >= 0:
@@ -204,6 +204,37 @@ Theorem C08_count_maps_have_no_infinity : forall m fe oe e,
 Proof. exact count_map_noinf. Qed.
 Print Assumptions C08_count_maps_have_no_infinity.
 
+(* ---- the views of a manager (round 4): gen_table_of_counts, gen_format_cells, gen_count_keys are regenerated from
+   BasicContingencyManager._make_xr_table / format_table and BinaryContingencyManager._get_counts (site C08.views, which also
+   refuses any method other than the constructors that writes an attribute of the manager) ---- *)
+(* get_table(): for a counts dict in ANY key order (given as its item list) the table reports under every label the count stored
+   under that key, and its labels / values are the dict's keys / values in the dict's own order *)
+Theorem C08_table_labelled_by_key : forall A (counts : list (string * A)) k,
+  by_label k (gen_table_of_counts counts) = by_label k counts.
+Proof. exact table_labelled_by_key. Qed.
+Print Assumptions C08_table_labelled_by_key.
+Theorem C08_table_labels_are_the_keys : forall A (counts : list (string * A)),
+  map fst (gen_table_of_counts counts) = map fst counts /\ map snd (gen_table_of_counts counts) = map snd counts.
+Proof. exact table_labels_are_the_keys. Qed.
+Print Assumptions C08_table_labels_are_the_keys.
+(* format_table(): for the key order the library itself builds (transform, event operators) the 2x2 frame shows hits and false
+   alarms in the forecast-yes row, misses and correct negatives in the forecast-no row *)
+Theorem C08_format_table_library_order : forall A (tp tn fp fn tot : A),
+  gen_format_cells (gen_table_of_counts (combine gen_count_keys [tp; tn; fp; fn; tot])) = [Some tp; Some fp; Some fn; Some tn].
+Proof. exact format_cells_library_order. Qed.
+Print Assumptions C08_format_table_library_order.
+(* for a dict in ANY key order the frame is right iff format_table reads the table by label: the first statement is the full
+   property and is vacuous while the code reads by position; the second is the Coq form of the known finding
+   format-table-by-position (Finley's table in the customary 2x2 reading order) and becomes vacuous with the repair *)
+Theorem C08_format_table_any_order : gen_format_reads_by_label = true ->
+  forall A (counts : list (string * A)), gen_format_cells (gen_table_of_counts counts) = cells_by_label counts.
+Proof. exact format_cells_any_order. Qed.
+Print Assumptions C08_format_table_any_order.
+Theorem C08_format_table_by_position_refuted : gen_format_reads_by_label = false ->
+  exists counts : list (string * nat), NoDup (map fst counts) /\ gen_format_cells (gen_table_of_counts counts) <> cells_by_label counts.
+Proof. exact format_cells_by_position_refuted. Qed.
+Print Assumptions C08_format_table_by_position_refuted.
+
 (* ---- non-vacuity ---- *)
 (* threshold 0 is honoured: 0 >= 0 is an event (with the default 0.001 it would not be) *)
 Example C08_ex_threshold_zero :
@@ -216,3 +247,7 @@ Example C08_ex_tolerance :
 Proof. split; reflexivity. Qed.
 Example C08_ex_hyp : 0 <= 1 # 10 /\ In (MStr ">=") [MStr (mode_name OpGe); MOp OpGe].
 Proof. split. lra. simpl; tauto. Qed.
+(* a counts dict in the customary 2x2 reading order: the table still reports each count under its own label *)
+Example C08_ex_table_labels :
+  by_label "tn_count" (gen_table_of_counts [("tp_count", 28%nat); ("fp_count", 72%nat); ("fn_count", 23%nat); ("tn_count", 2680%nat); ("total_count", 2803%nat)]) = Some 2680%nat.
+Proof. reflexivity. Qed.
